@@ -34,8 +34,10 @@ def impl(case):
                 z[k_] = zero_
             return f()
         return run_
-    chart("agenda_again", again(lambda: g.agenda()))
-    chart("naive_again", again(lambda: g.naive_bottom_up()))
+    g2, g3 = common.mk_cfg(case["cfg"], R), common.mk_cfg(case["cfg"], R)   # fresh objects: the FIRST chart they hand out is the one edited
+    chart("agenda_again", again(lambda: g2.agenda()))
+    chart("naive_again", again(lambda: g3.naive_bottom_up()))
+    chart("agenda_again2", again(lambda: g.agenda()))
     # the same grammar object GROWN after a first evaluation: a prefix of the rule list is evaluated, the remaining
     # rules are added with `add`, and the evaluators run again (anything memoised per object must follow the rule list)
     k = case.get("split")
@@ -169,7 +171,7 @@ def run(ctx):
             if res is None or "exc" in res:
                 semantic.append(_viol(c, hs, "worker", None, None, res))
                 continue
-            for name in ("agenda", "naive", "agenda_again", "naive_again") + (("agenda_grown", "naive_grown") if c.get("split") is not None else ()):
+            for name in ("agenda", "naive", "agenda_again", "naive_again", "agenda_again2") + (("agenda_grown", "naive_grown") if c.get("split") is not None else ()):
                 ch = res[name]
                 if isinstance(ch, dict):
                     semantic.append(_viol(c, hs, name, None, None, ch))
